@@ -182,7 +182,7 @@ func Model(t *rapid.T, o Opts) *m.Model {
 			}
 			genLeaf := func() *m.Rewrite {
 				k := rapid.IntRange(0, 9).Draw(t, "leafKind")
-				if k < 5 && len(restr) > 0 && !chance(t, "multiThis", 4) {
+				if k < 5 && len(restr) > 0 && !chance(t, "multiThis", 30) {
 					// The DSL allows one direct-assignment operand per relation; a
 					// second `this` is only expressible through the API, so it is rare.
 					k = 5 + k%5
@@ -244,6 +244,14 @@ func Model(t *rapid.T, o Opts) *m.Model {
 				return rw
 			}
 			rw := genRW(rapid.IntRange(0, 2).Draw(t, "depth"))
+			if !chance(t, "allowMultiThis", 3) {
+				// The DSL allows one direct-assignment operand per relation; a second
+				// `this` is only expressible through the API, so keep it rare.
+				seen := false
+				if pruned := pruneExtraThis(rw, &seen); pruned != nil {
+					rw = pruned
+				}
+			}
 			td.Relations = append(td.Relations, m.Relation{Name: rn, Rewrite: rw, Restr: restr})
 		}
 	}
@@ -296,4 +304,36 @@ func demoteFirstDifference(rw *m.Rewrite) (*m.Rewrite, bool) {
 		}
 	}
 	return rw, false
+}
+
+// pruneExtraThis removes every direct-assignment leaf after the first one;
+// operators left with a single operand collapse to it. It returns nil when the
+// whole subtree disappears.
+func pruneExtraThis(rw *m.Rewrite, seen *bool) *m.Rewrite {
+	switch rw.Kind {
+	case m.This:
+		if *seen {
+			return nil
+		}
+		*seen = true
+		return rw
+	case m.Union, m.Intersection, m.Difference:
+		var kept []*m.Rewrite
+		for _, c := range rw.Children {
+			if p := pruneExtraThis(c, seen); p != nil {
+				kept = append(kept, p)
+			}
+		}
+		switch len(kept) {
+		case 0:
+			return nil
+		case 1:
+			return kept[0]
+		}
+		if rw.Kind == m.Difference && len(kept) != 2 {
+			return kept[0]
+		}
+		return &m.Rewrite{Kind: rw.Kind, Children: kept}
+	}
+	return rw
 }
